@@ -8,7 +8,7 @@ ROOT = os.path.dirname(os.path.dirname(os.path.abspath(__file__)))
 CHECKS = {
  "C12": ("E2-stateright",
          "explicit-state BFS (stateright) with the real buffer objects in the transition function, lock-step against an append-only log model",
-         "All operation histories up to the depth bound on fixed-slice targets of capacity 0..4, the growable target and input sources of length 0..4 are explored exhaustively on the real objects; every generated state is compared with a Vec<u8> log model (contents, position, reservation ranges, guard regions, failed-operation-changes-nothing). This is the right level because the property quantifies over histories of a small sequential state machine whose complete state is observable.",
+         "All operation histories up to the depth bound on fixed-slice targets of capacity 0..4, the growable target and input sources of length 0..4 are explored exhaustively on the real objects; every generated state is compared with a Vec<u8> log model (contents, position, reservation ranges, guard regions, failed-operation-changes-nothing); an enumerated family adds what histories cannot contain (counts near usize::MAX, a reservation presented to another target, a vector with contents and dirty spare capacity). This is the right level because the property quantifies over histories of a small sequential state machine whose complete state is observable.",
          "trusted: the log model in mc/src/props/c12.rs; Reservation ranges are read from its Debug output; histories longer than the bound are covered only by the periodic family",
          "DESIGN.md §4 C12"),
 }
@@ -21,12 +21,12 @@ CHECKS.update({
          "DESIGN.md §4 C10"),
  "C11": ("E1-choice-tree",
          "exhaustive enumeration of all short byte strings x all decodable types on the real decoder against a reference decoder, with allocation accounting, in crash-isolated workers",
-         "All byte strings up to the length bound, the announced-size family and every truncation / single-byte substitution of valid encodings are decoded by the real decoder for 35 types (including the generator-reply types compiled from /repo/slicec/src/definition_types.rs); Ok/Err, value and consumed prefix must agree with an independent reference decoder, every error must render, and bytes allocated per decode (counted by the harness allocator) must be governed by the input length; every truncation and 6 substitutions at every byte of a valid reply are also sent to the real slicec binary by a fake generator: an undecodable reply must become an error diagnostic and a non-zero exit status.",
+         "All byte strings up to the length bound, the announced-size family and every truncation / single-byte substitution of valid encodings are decoded by the real decoder for 35 types (including the generator-reply types compiled from /repo/slicec/src/definition_types.rs), plus tagged-field blocks with tags of every width and size class and variable-length integers decoded into unusual target types; Ok/Err, value and consumed prefix must agree with an independent reference decoder, every error must render, and bytes allocated per decode (counted by the harness allocator) must be governed by the input length; every truncation and 6 substitutions at every byte of a valid reply are also sent to the real slicec binary by a fake generator: an undecodable reply must become an error diagnostic and a non-zero exit status.",
          "trusted: the reference decoder in mc/src/refcodec.rs; the memory bound 256*len+4KiB is the harness' reading of 'governed by the length of the input'; byte strings longer than the bound are covered only through the corruption and announced-size families",
          "DESIGN.md §4 C11"),
  "C19": ("E1-choice-tree",
          "exhaustive enumeration of all short specification strings through the real clap command line against a reference parser; exhaustive round-trip products",
-         "Every string up to the length bound over the syntax-relevant alphabet is parsed through the real command-line definition and compared (accept/reject, path, pairs, order) with a reference parser written from the statement; every bounded (path, arguments) value is rendered through the escaping function and must parse back exactly; repeated -G options keep their order; through the real binary, argument lists (repeated keys, escaped / non-ASCII / long components) must reach two capturing generators unchanged after the identical request, and every rejected short string must be a usage error (exit status 2, nothing generated).",
+         "Every string up to the length bound over the syntax-relevant alphabet, and 14 specification shapes around each of 159 characters (all of ASCII, case-changing letters, every kind of white space, look-alikes of the separators, astral characters), are parsed through the real command-line definition in every form the option can be written (-G V, --generator V, =, attached; with sources before and after) and compared (accept/reject, path, pairs, order) with a reference parser written from the statement; every bounded (path, arguments) value is rendered through the escaping function and must parse back exactly; repeated -G options keep their order; through the real binary, argument lists (repeated keys, escaped / non-ASCII / long components) must reach two capturing generators unchanged after the identical request, and every rejected short string must be a usage error (exit status 2, nothing generated).",
          "trusted: the reference parser in mc/src/props/c19.rs; characters outside the alphabet are represented by 'b', tab, 'é' and '\"'",
          "DESIGN.md §4 C19"),
 })
@@ -52,7 +52,7 @@ CHECKS.update({
 CHECKS.update({
  "C05": ("E1-choice-tree",
          "complete enumeration of all small containment / alias / inheritance graphs rendered as programs and compiled by the real compiler; graph-theoretic oracle (reachability)",
-         "Every directed containment graph on up to 3 nodes (all kinds x 7 wrapper routings, per-edge routings on 2 nodes), all 65536 graphs on 4 nodes, all 65536 graphs on same-named types of two modules, all 9^4 alias graphs and all 2^16 inheritance graphs on 4 interfaces (with an operation each and with empty bodies) are compiled; E032 must be reported iff a containment cycle exists, chains must be real closed walks covering every node on a cycle, alias/inheritance loops must be rejected and acyclic ones accepted, and every run must end with a verdict in a crash-isolated worker.",
+         "Every directed containment graph on up to 3 nodes (all kinds x 11 routings: direct, optional, sequence, dictionary key / value, result arms, tagged members, through aliases; per-edge routings on 2 nodes), all 65536 graphs on 4 nodes, all 65536 graphs on same-named types of two modules (also with every edge through the same wrapper), all 9^4 alias graphs and all 2^16 inheritance graphs on 4 interfaces (with an operation each and with empty bodies) are compiled; E032 must be reported iff a containment cycle exists, chains must be real closed walks covering every node on a cycle, alias/inheritance loops must be rejected and acyclic ones accepted, and every run must end with a verdict in a crash-isolated worker.",
          "trusted: the reachability oracle; graphs with more than 4 nodes are represented by six deterministic 10-node families only",
          "DESIGN.md §4 C05"),
 })
@@ -73,12 +73,12 @@ CHECKS.update({
          "DESIGN.md §4 C04"),
  "C07": ("E3-process",
          "complete product of process-level scenarios of the real slicec binary with logging fake generators",
-         "Program class (13, one error of each phase / warnings only / clean) x position of the offending file x 0..3 generators x --dry-run x -A x -O x output format, plus runs with exactly one failing generator: generators are started iff no Error was produced and --dry-run is off; no file appears unless generators ran; exit status != 0 iff an error line was emitted. Complete product, same in both tiers.",
+         "Program class (13, one error of each phase / warnings only / clean) x position of the offending file x 0..3 generators x --dry-run x -A x -O x output format, plus runs with exactly one failing generator, an output directory that does not exist yet, the offending file listed as a reference (file and directory), and programs with 256 / 257 errors: generators are started iff no Error was produced and --dry-run is off; no file appears unless generators ran; exit status != 0 iff an error line was emitted. Complete product, same in both tiers.",
          "trusted: mc/src/proc.rs (scenario runner) and fakegen; the binary is built from /repo/slicec/src/main.rs as a bin target of the harness",
          "DESIGN.md §4 C07"),
  "C18": ("E3-process",
          "exhaustive enumeration of generator fault sequences (behaviour catalogue^1..3, every truncation of a valid reply, output-directory states, payload sizes, one delay deviation) against the real slicec binary",
-         "1..3 scripted fake generators per run, each drawn from a 24-row behaviour catalogue (cannot start, exit codes, signals, stderr, stdin not read / half read, empty / truncated-at-every-byte / undecodable replies, nested and absolute output paths) x 8 output-directory states x small/large request x at most one 50 ms delay point: slicec must end without crash or hang, report exactly the failing generators by path, start all generators with the identical request followed by their own arguments, exit non-zero iff something failed, write files only from decoded replies below the output directory and leave identical files untouched.",
+         "1..3 scripted fake generators per run, each drawn from a 26-row behaviour catalogue (cannot start, exit codes, signals, stderr, stdin not read / half read, empty / truncated-at-every-byte / undecodable replies, nested, absolute and '..' output paths), one executable named by several -G options, x 8 output-directory states x small/large request x at most one 50 ms delay point: slicec must end without crash or hang, report exactly the failing generators by path, start all generators with the identical request followed by their own arguments, exit non-zero iff something failed, write files only from decoded replies below the output directory and leave identical files untouched.",
          "trusted: mc/src/proc.rs and fakegen; OS scheduling between slicec and its children is approximated by scripted delay points; 'not writable' is represented by 'is a regular file' because the harness runs as root; softenings SOFT-1..6 are listed in mc/src/props/c18.rs",
          "DESIGN.md §4 C18"),
 })
@@ -86,7 +86,7 @@ CHECKS.update({
 CHECKS.update({
  "C16": ("E1-choice-tree",
          "bounded-exhaustive enumeration of doc-comment shapes x commentable positions x link targets compiled by the real compiler against a reference comment reader and the reference resolver",
-         "All overview line sequences up to the bound over a 27-form line alphabet (six indentation kinds incl. mixed-width Unicode, links at start/middle/end, blank and whitespace-only lines), block tags with inline/continuation messages in all orders and under 8 indentations / 4 gaps of the tag line (ASCII, non-ASCII, mixed), 32 link targets of every kind and scope distance from 11 positions, and a 16-form malformed catalogue alone and next to healthy sibling comments: the whole observed AST including comments must equal the model; malformed / ill-fitting / unresolvable give exactly warnings of the right lint, never an error, and never cost an element.",
+         "All overview line sequences up to the bound over a 45-form line alphabet (six indentation kinds incl. mixed-width Unicode, links at start/middle/end, braces and at-signs that start no tag, blank and whitespace-only lines) in LF, CRLF and one-token-per-line layouts, block tags with inline/continuation messages in all orders and under 8 indentations / 4 gaps of the tag line (ASCII, non-ASCII, mixed), 32 link targets of every kind and scope distance (with shadowed names along the scope chain) from 11 positions, the same target written in two comments at once, and a 16-form malformed catalogue alone and next to healthy sibling comments: the whole observed AST including comments must equal the model; malformed / ill-fitting / unresolvable give exactly warnings of the right lint, never an error, and never cost an element.",
          "trusted: the reference comment reader in mc/src/model/doc.rs (written from the statement); CRLF carriage returns at line ends are normalised; @param on an enumerator is not judged",
          "DESIGN.md §4 C16"),
  "C17": ("E1-choice-tree",
@@ -99,12 +99,12 @@ CHECKS.update({
 CHECKS.update({
  "C06": ("E1-choice-tree",
          "bounded-exhaustive enumeration of directive/source line sequences x symbol sets and of boolean expressions compiled by the real compiler against a reference preprocessor",
-         "All line sequences (well nested or not) up to the length bound over a 14-form alphabet x all 8 subsets of {A,B,C} given with -D, all expression trees and token strings up to the bound, layout variants (indentation, blanks after '#', trailing comments, CRLF, missing final newline), chains of #elif branches with different conditions, 2- and 3-file sets (also next to an ill-formed file that changes symbols before it fails): for well-formed files the definitions reaching the parser are exactly the selected lines at their original rows and columns (and an E033 probe diagnostic sits on the original position), ill-formed files give a located E002, symbols never leak between files.",
+         "All line sequences (well nested or not) up to the length bound over a 14-form alphabet x all 8 subsets of {A,B,C} given with -D, all expression trees and token strings up to the bound, layout variants (indentation, blanks after '#', trailing comments, CRLF, missing final newline, multi-byte text and '#' inside source lines and trailers, blank lines / a directive / indentation before the module line), chains of #elif branches with different conditions, 2- and 3-file sets (also next to an ill-formed file that changes symbols before it fails): for well-formed files the definitions reaching the parser are exactly the selected lines at their original rows and columns (and an E033 probe diagnostic sits on the original position), ill-formed files give a located E002, symbols never leak between files.",
          "trusted: the reference preprocessor in mc/src/props/c06.rs; the expression grammar (! only before the first term, && and || equal precedence, left associative) is taken as the language definition; E002 counts are not demanded",
          "DESIGN.md §4 C06"),
  "C13": ("E1-choice-tree",
          "complete product of lint templates x suppression placements x arguments (options parsed by the real clap definition) with a reference level function and a differential oracle",
-         "34 templates (every lint kind on every element kind it can arise on, incl. a parameter and a return member with the same name) x 8 placements x 5 arguments x {alone, next to an error}, all placement pairs, DuplicateFile on real files, and the single-placement product again through the real binary with a capturing generator (exit status, error reports, set of warnings and decoded generator request with and without the suppression): a lint is Allowed exactly when named (or All) by an accepted --allow, the file attribute of its file, the element concerned or an enclosing definition; with and without the suppression the diagnostic list, spans and the AST are identical except for the targeted levels and the attribute itself; errors keep level Error.",
+         "40 templates (every lint kind on every element kind it can arise on, incl. a parameter and a return member with the same name, every site that produces IncorrectDocComment) x 8 placements x 5 arguments x {alone, next to a validation error, next to a file with a syntax error / without a module / with a preprocessor error}, a second file with lints of its own, all placement pairs, DuplicateFile on real files, and the single-placement product again through the real binary with a capturing generator (exit status, error reports, set of warnings and decoded generator request with and without the suppression): a lint is Allowed exactly when named (or All) by an accepted --allow, the file attribute of its file, the element concerned or an enclosing definition; with and without the suppression the diagnostic list, spans and the AST are identical except for the targeted levels and the attribute itself; errors keep level Error.",
          "trusted: the reference level function in mc/src/props/c13.rs; an allow on an enclosing member (operation / enumerator) is not judged because the statement says 'definition'; the request differential uses C08's decoder",
          "DESIGN.md §4 C13"),
 })
@@ -120,7 +120,7 @@ CHECKS.update({
 CHECKS.update({
  "C14": ("E1-choice-tree",
          "enumeration of diagnostic-producing programs x emission configurations; the stream written by the real DiagnosticEmitter (and by the real binary) is re-parsed independently and compared with the diagnostics obtained through the API",
-         "46 diagnostic sources (one per diagnostic kind reachable from text, incl. notes with and without spans, multi-line spans, hostile user text) alone and in all ordered pairs, in one and two files and two layouts x {human, json} x colour on/off x --allow none/Deprecated/All are emitted into a buffer by the real emitter with options parsed by the real clap definition; a process-level slice runs the binary for totals, exit status, span-less diagnostics, diagnostics from the generator phase and hostile file names, with the environment asking for colours. JSON lines must parse to objects with exactly the five keys and equal the API values in order; human output must have one header per non-allowed diagnostic with its notes and locations; totals and exit status agree; no ESC byte with colours disabled; allowed lints leave no trace.",
+         "46 diagnostic sources (one per diagnostic kind reachable from text, incl. notes with and without spans, multi-line spans, hostile user text) alone and in all ordered pairs, in one and two files and two layouts x {human, json} x colour on/off x --allow none/Deprecated/All are emitted into a buffer by the real emitter with options parsed by the real clap definition; ill-formed raw texts give the diagnostics of the parsing phases (no span, end of file, user bytes); a process-level slice runs the binary for totals, exit status, span-less diagnostics, diagnostics from the generator phase (also generators that write to stderr or reply with diagnostics) and hostile file names, with the environment asking for colours; a minimal compiler that ends with CompilationState::emit_diagnostics must write the same two streams as the binary. JSON lines must parse to objects with exactly the five keys and equal the API values in order; human output must have one header per non-allowed diagnostic with its notes and locations; totals and exit status agree; no ESC byte with colours disabled; allowed lints leave no trace.",
          "trusted: the stream parsers in mc/src/props/c14.rs; serde_json for parsing; multi-line messages are compared on their first line in human format",
          "DESIGN.md §4 C14"),
 })
